@@ -40,6 +40,11 @@ def run(ctx):
     maps.rule_U_CHARS(ctx, modules=("impl_enum::parser",))
     T = tables.Tables(ctx)
     tables.rule_T_NONEMPTY(ctx, T)
+    # the enum parser's productions: which keyword is tested / skipped / handed to which sub-parser, which slot is filled (P-SKELETON), in terms of
+    # cursor primitives with exactly their reviewed meaning (P-PRIM)
+    import pskel as _pskel
+    _pskel.rule_P_PRIM(ctx)
+    _pskel.rule_P_SKELETON(ctx)
     ctx.undecided = ["bounds obligations backed by a reviewed invariant rather than a machine proof (see `why` of each table entry)",
                      "stack depth: recursion is linear in bracket nesting (the property bounds nesting at 64)",
                      "termination/panic-freedom of external std/dependency callees not on the may-panic list (assumed total, listed in the evidence)"]
